@@ -1,8 +1,21 @@
-//! C07 executor: `<ty> <op> <form> a b c d` with x = Rational::new(a, b), y = Rational::new(c, d).
+//! C07 executor: `<ty> <op> <form> a b c d [x=<kind>] [y=<kind>] [pre=<history>]`
 //! ops: new newint add sub mul div neg cmp eqhash floor ceil show
-//! forms (binary arithmetic ops only): val (x op y), ref (x op &y), asgval (x op= y), asgref (x op= &y)
+//! forms (binary arithmetic ops only): val (x op y), ref (x op &y), asgval (x op= y), asgref (x op= &y),
+//!   all (the four forms are run one after the other and must return the same fields / all panic)
+//! operand kinds (how the operand with the VALUE a/b resp. c/d is built):
+//!   n  Rational::new(a, b)                     (default)
+//!   l  struct literal Rational { a, b }        (public fields; b > 0, not necessarily in lowest terms)
+//!   i  Rational::new_int(a)                    (b must be 1)
+//!   z  <Rational<T> as ZeroOne>::ZERO          (a b must be 0 1)
+//!   o  <Rational<T> as ZeroOne>::ONE           (a b must be 1 1)
+//! pre=a0,b0;op,form,c,d;...  x is the result of a history: Rational::new(a0, b0) folded through the listed
+//!   operations (add sub mul div with a fresh Rational::new(c, d); neg floor ceil); the generator computed the
+//!   exact value and passes its canonical fields as a b: anything else is reported as `X pre ...`.
 //! prints `R a b` (fields of the result), `C <cmp> <partial_cmp>`, `E <x==y> <hash(x)==hash(y)>`,
-//! `S <Display text>`, or `P` when the call panics.
+//! `S <Display text>`, `P` when the call panics, or `X <what>` when one of the executor's own consistency
+//! checks fails (a result that is not ==, not hashed like, or not ordered Equal to Rational::new of its own
+//! fields; a clone that differs; operator forms that disagree; a history that went somewhere else).
+use rlib_num_traits::ZeroOne;
 use rlib_rational::Rational;
 use std::cmp::Ordering;
 use std::collections::hash_map::DefaultHasher;
@@ -24,7 +37,12 @@ fn ord(o: Ordering) -> &'static str {
     }
 }
 
-macro_rules! binop {
+fn die(msg: String) -> ! {
+    eprintln!("harness: {}", msg);
+    std::process::exit(3)
+}
+
+macro_rules! one_form {
     ($form:expr, $x:expr, $y:expr, $op:tt, $opa:tt) => {{
         let x = $x;
         let y = $y;
@@ -41,71 +59,271 @@ macro_rules! binop {
                 z $opa &y;
                 z
             }
-            other => {
-                eprintln!("harness: unknown form {}", other);
-                std::process::exit(3)
+            other => die(format!("unknown form {}", other)),
+        }
+    }};
+}
+
+/// Ok(result) / Err(X-line).  A panic propagates (form `all`: only when every form panics).
+macro_rules! binop {
+    ($form:expr, $x:expr, $y:expr, $op:tt, $opa:tt) => {{
+        let x = $x;
+        let y = $y;
+        if $form == "all" {
+            let rs: Vec<Option<_>> = ["val", "ref", "asgval", "asgref"]
+                .iter()
+                .map(|f| vh::guarded(|| one_form!(*f, x, y, $op, $opa)))
+                .collect();
+            let show = |r: &Option<_>| match r {
+                Some(z) => fields(z),
+                None => "P".to_string(),
+            };
+            if rs.iter().all(|r| show(r) == show(&rs[0])) {
+                match rs[0] {
+                    Some(z) => Ok(z),
+                    None => panic!("all four forms panic"),
+                }
+            } else {
+                Err(format!(
+                    "X forms-differ val={} ref={} asgval={} asgref={}",
+                    show(&rs[0]).replace(' ', "/"),
+                    show(&rs[1]).replace(' ', "/"),
+                    show(&rs[2]).replace(' ', "/"),
+                    show(&rs[3]).replace(' ', "/")
+                ))
             }
+        } else {
+            Ok(one_form!($form, x, y, $op, $opa))
         }
     }};
 }
 
 macro_rules! run {
     ($t:ty, $toks:expr) => {{
+        type R = Rational<$t>;
+        fn fields(r: &R) -> String {
+            format!("{} {}", r.a, r.b)
+        }
+        /// 2 * max(|a|, |b|)^2 fits in T: every intermediate of a binary operator / cmp on operands of this size fits
+        fn fits_binary(r: &R) -> bool {
+            if r.a == <$t>::MIN || r.b == <$t>::MIN {
+                return false;
+            }
+            let m = std::cmp::max(r.a.abs(), r.b.abs());
+            m.checked_mul(m).and_then(|v| v.checked_mul(2)).is_some()
+        }
+        /// a value z whose fields are what Rational::new makes of them must be indistinguishable from that fresh
+        /// value: ==, Hash, clone, clone_from, and (where the subtraction inside cmp fits) the whole order interface
+        fn route(z: &R) -> Option<String> {
+            if z.b == 0 || z.a == <$t>::MIN || z.b == <$t>::MIN {
+                return None;
+            }
+            let w = R::new(z.a, z.b);
+            if w.a != z.a || w.b != z.b {
+                return None; // not canonical: that is for the specification to judge from the printed fields
+            }
+            let z = *z;
+            if !(z == w) || !(w == z) || z != w || w != z {
+                return Some(format!("route-eq {}/{} is not == Rational::new of its fields", z.a, z.b));
+            }
+            if h(&z) != h(&w) {
+                return Some(format!("route-hash {}/{} hashes unlike Rational::new of its fields", z.a, z.b));
+            }
+            #[allow(clippy::clone_on_copy)]
+            let c = z.clone();
+            if c != z || c.a != z.a || c.b != z.b || h(&c) != h(&z) {
+                return Some(format!("route-clone {}/{}", z.a, z.b));
+            }
+            let mut c2 = R::new(1, 1);
+            c2.clone_from(&z);
+            if c2 != z || c2.a != z.a || c2.b != z.b || h(&c2) != h(&w) {
+                return Some(format!("route-clone_from {}/{}", z.a, z.b));
+            }
+            if fits_binary(&z) {
+                let ok = z.cmp(&w) == Ordering::Equal
+                    && w.cmp(&z) == Ordering::Equal
+                    && z.partial_cmp(&w) == Some(Ordering::Equal)
+                    && !(z < w)
+                    && !(z > w)
+                    && z <= w
+                    && z >= w
+                    && std::cmp::max(z, w) == w
+                    && std::cmp::min(w, z) == w;
+                if !ok {
+                    return Some(format!("route-cmp {}/{} is not ordered Equal to Rational::new of its fields", z.a, z.b));
+                }
+            }
+            None
+        }
+        fn rat(r: R) -> String {
+            match route(&r) {
+                Some(m) => format!("X {}", m),
+                None => format!("R {}", fields(&r)),
+            }
+        }
+        fn rres(r: Result<R, String>) -> String {
+            match r {
+                Ok(z) => rat(z),
+                Err(m) => m,
+            }
+        }
+        fn mk(kind: &str, a: $t, b: $t) -> R {
+            match kind {
+                "n" => R::new(a, b),
+                // struct update syntax: still builds if the struct grows further public fields (they come from a
+                // Rational::new value); a and b are exactly the given ones
+                #[allow(clippy::needless_update)]
+                "l" => R { a, b, ..R::new(1, 1) },
+                "i" => {
+                    if b != 1 {
+                        die(format!("kind i needs b = 1, got {}", b))
+                    }
+                    R::new_int(a)
+                }
+                "z" => {
+                    if a != 0 || b != 1 {
+                        die(format!("kind z needs 0 1, got {} {}", a, b))
+                    }
+                    <R as ZeroOne>::ZERO
+                }
+                "o" => {
+                    if a != 1 || b != 1 {
+                        die(format!("kind o needs 1 1, got {} {}", a, b))
+                    }
+                    <R as ZeroOne>::ONE
+                }
+                other => die(format!("unknown operand kind {}", other)),
+            }
+        }
+        /// Ok(x) after the history, Err(X-line) when a step's result fails its route check
+        fn history(spec: &str) -> Result<R, String> {
+            let mut parts = spec.split(';');
+            let first: Vec<&str> = parts.next().unwrap().split(',').collect();
+            if first.len() != 2 {
+                die(format!("bad history start {:?}", first))
+            }
+            let mut x = R::new(p(first[0]), p(first[1]));
+            for (i, st) in parts.enumerate() {
+                let s: Vec<&str> = st.split(',').collect();
+                if s.len() != 4 {
+                    die(format!("bad history step {:?}", s))
+                }
+                let (c, d): ($t, $t) = (p(s[2]), p(s[3]));
+                let r: Result<R, String> = match s[0] {
+                    "add" => binop!(s[1], x, R::new(c, d), +, +=),
+                    "sub" => binop!(s[1], x, R::new(c, d), -, -=),
+                    "mul" => binop!(s[1], x, R::new(c, d), *, *=),
+                    "div" => binop!(s[1], x, R::new(c, d), /, /=),
+                    "neg" => Ok(-x),
+                    "floor" => Ok(x.floor()),
+                    "ceil" => Ok(x.ceil()),
+                    other => die(format!("unknown history op {}", other)),
+                };
+                x = match r {
+                    Ok(z) => z,
+                    Err(m) => return Err(format!("{} in-history-step-{}", m, i)),
+                };
+                if let Some(m) = route(&x) {
+                    return Err(format!("X {} in-history-step-{}", m, i));
+                }
+            }
+            Ok(x)
+        }
+
         let t = $toks;
+        if t.len() < 7 {
+            die(format!("short line {:?}", t))
+        }
         let (op, form) = (t[1], t[2]);
         let (a, b, c, d): ($t, $t, $t, $t) = (p(t[3]), p(t[4]), p(t[5]), p(t[6]));
-        let rat = |r: Rational<$t>| format!("R {} {}", r.a, r.b);
+        let (mut xk, mut yk, mut pre) = ("n", "n", None);
+        for tok in &t[7..] {
+            if let Some(v) = tok.strip_prefix("x=") {
+                xk = v;
+            } else if let Some(v) = tok.strip_prefix("y=") {
+                yk = v;
+            } else if let Some(v) = tok.strip_prefix("pre=") {
+                pre = Some(v);
+            } else {
+                die(format!("unknown token {}", tok))
+            }
+        }
+        let lit = xk == "l" || yk == "l";
+        // a broken history is not a panic of the operation under test: it is reported, never printed as `P`
+        let hist: Option<Result<R, String>> = pre.map(|spec| match vh::guarded(|| history(spec)) {
+            None => Err("X pre the history panicked".to_string()),
+            Some(Err(m)) => Err(m),
+            Some(Ok(x)) => {
+                if x.a != a || x.b != b {
+                    Err(format!("X pre history ended in {}/{} instead of {}/{}", x.a, x.b, a, b))
+                } else {
+                    Ok(x)
+                }
+            }
+        });
+        if let Some(Err(m)) = &hist {
+            return m.clone();
+        }
+        let getx = || match &hist {
+            Some(Ok(x)) => *x,
+            _ => mk(xk, a, b),
+        };
+        let gety = || mk(yk, c, d);
         match op {
-            "new" => rat(Rational::<$t>::new(a, b)),
-            "newint" => rat(Rational::<$t>::new_int(a)),
-            "add" => rat(binop!(form, Rational::<$t>::new(a, b), Rational::<$t>::new(c, d), +, +=)),
-            "sub" => rat(binop!(form, Rational::<$t>::new(a, b), Rational::<$t>::new(c, d), -, -=)),
-            "mul" => rat(binop!(form, Rational::<$t>::new(a, b), Rational::<$t>::new(c, d), *, *=)),
-            "div" => rat(binop!(form, Rational::<$t>::new(a, b), Rational::<$t>::new(c, d), /, /=)),
-            "neg" => rat(-Rational::<$t>::new(a, b)),
+            "new" => rat(getx()),
+            "newint" => rat(R::new_int(a)),
+            "add" => rres(binop!(form, getx(), gety(), +, +=)),
+            "sub" => rres(binop!(form, getx(), gety(), -, -=)),
+            "mul" => rres(binop!(form, getx(), gety(), *, *=)),
+            "div" => rres(binop!(form, getx(), gety(), /, /=)),
+            "neg" => rat(-getx()),
             "cmp" => {
-                let (x, y) = (Rational::<$t>::new(a, b), Rational::<$t>::new(c, d));
+                let (x, y) = (getx(), gety());
                 let pc = x.partial_cmp(&y).expect("partial_cmp returned None");
-                // the relational operators and max/min (provided methods that an impl may override) must tell the
-                // same story as cmp; if they do not, the second field shows the reverse of cmp, which no
+                // the relational operators and max/min/clamp (provided methods that an impl may override) must tell
+                // the same story as cmp; if they do not, the second field shows the reverse of cmp, which no
                 // specification accepts together with the first
                 let o = x.cmp(&y);
+                let (lo, hi) = if o == Ordering::Greater { (y, x) } else { (x, y) };
                 let consistent = (x < y) == (o == Ordering::Less)
                     && (x <= y) == (o != Ordering::Greater)
                     && (x > y) == (o == Ordering::Greater)
                     && (x >= y) == (o != Ordering::Less)
-                    && (x != y) == (o != Ordering::Equal)
+                    // == is structural: a literal operand that is not in lowest terms is != its reduced form
+                    && (lit || (x != y) == (o != Ordering::Equal))
                     && std::cmp::max(x, y) == (if o == Ordering::Greater { x } else { y })
                     && std::cmp::min(x, y) == (if o == Ordering::Greater { y } else { x })
-                    && y.cmp(&x) == o.reverse();
+                    && x.max(y) == hi
+                    && x.min(y) == lo
+                    && x.clamp(lo, hi) == x
+                    && y.clamp(lo, hi) == y
+                    && y.cmp(&x) == o.reverse()
+                    && y.partial_cmp(&x) == Some(o.reverse());
                 format!("C {} {}", ord(o), ord(if consistent { pc } else if o == Ordering::Equal { Ordering::Less } else { o.reverse() }))
             }
             "eqhash" => {
-                let (x, y) = (Rational::<$t>::new(a, b), Rational::<$t>::new(c, d));
+                let (x, y) = (getx(), gety());
+                if (x == y) != (y == x) || (x != y) == (x == y) {
+                    return "X eq is not symmetric / != is not its negation".to_string();
+                }
                 format!("E {} {}", (x == y) as u8, (h(&x) == h(&y)) as u8)
             }
-            "floor" => rat(Rational::<$t>::new(a, b).floor()),
-            "ceil" => rat(Rational::<$t>::new(a, b).ceil()),
-            "show" => format!("S {}", Rational::<$t>::new(a, b)),
-            other => {
-                eprintln!("harness: unknown op {}", other);
-                std::process::exit(3)
-            }
+            "floor" => rat(getx().floor()),
+            "ceil" => rat(getx().ceil()),
+            "show" => format!("S {}", getx()),
+            other => die(format!("unknown op {}", other)),
         }
     }};
 }
 
 fn main() {
     vh::serve(|t| match t[0] {
-        "i32" => run!(i32, t),
-        "i64" => run!(i64, t),
-        "i128" => run!(i128, t),
-        "i8" => run!(i8, t),
-        "i16" => run!(i16, t),
-        "isize" => run!(isize, t),
-        other => {
-            eprintln!("harness: unknown type {}", other);
-            std::process::exit(3)
-        }
+        "i32" => (|| run!(i32, t))(),
+        "i64" => (|| run!(i64, t))(),
+        "i128" => (|| run!(i128, t))(),
+        "i8" => (|| run!(i8, t))(),
+        "i16" => (|| run!(i16, t))(),
+        "isize" => (|| run!(isize, t))(),
+        other => die(format!("unknown type {}", other)),
     });
 }
